@@ -1,8 +1,13 @@
-(** C11, writing side: a library can be written and the text read again without a crash.
+(** C11, writing side: a library the reader returned can be written and the text read again without a crash.
 
     - [write_lib_ok_or_err]: the writer model returns text or a `LefError`, nothing else.
-    - [write_lib_sob]: the text starts with a keyword, hence on a character boundary.
-    - [rewrite_safe_gen]: reading the written text neither panics nor runs out of fuel. *)
+    - [write_lib_sob], [rewrite_safe_gen]: the text starts with a keyword, hence on a character boundary, and
+      reading it neither panics nor runs out of fuel (for ANY library, whatever its strings).
+    - [parse_valid]: every string of a library read from valid UTF-8 is valid UTF-8 ([val_lib]); proved with a
+      second, partial-correctness family of per-function lemmas [SV Q m] ("whatever m returns satisfies Q").
+    - [write_lib_valid]: the writer emits valid UTF-8 for a library whose strings are valid, hence
+      [rewrite_valid]: the text written for a library read from valid UTF-8 is valid UTF-8 (which is what
+      makes the model's [parse] of that text stand for the implementation's). *)
 From Coq Require Import ZArith List Bool Lia.
 From L21 Require Import Lef.LefDec Lef.LefData Lef.LefLex Lef.LefParse Lef.LefWrite Lef.LefLex_proofs Lef.LefParse_proofs.
 Import ListNotations.
@@ -102,4 +107,559 @@ Proof.
   intros cf l Hcf. split.
   - pose proof (write_lib_ok_or_err cf l) as H. intros E. rewrite E in H. exact H.
   - intros t E. apply parse_safe_gen; [exact Hcf | eapply write_lib_sob; eauto].
+Qed.
+
+(** * Every string of a library the reader returns is valid UTF-8 *)
+Definition vopt {A} (P : A -> Prop) (o : option A) : Prop := match o with Some x => P x | None => True end.
+(** a `char`: a scalar value whose encoding is well-formed *)
+Definition val_char (c : Z) : Prop := U8 (utf8_enc c).
+Definition val_via_inst (v : lef_via_inst) : Prop := U8 (vi_via_name v).
+Definition val_lg (l : lef_layer_geoms) : Prop := U8 (lg_layer_name l) /\ Forall val_via_inst (lg_vias l).
+Definition val_port (p : lef_port) : Prop := Forall val_lg (po_layers p).
+Definition val_attr (a : lef_antenna_attr) : Prop := U8 (aa_key a) /\ vopt U8 (aa_layer a).
+Definition val_prop (p : lef_property) : Prop := U8 (pr_name p) /\ U8 (pr_value p).
+Definition val_pin (p : lef_pin) : Prop :=
+  U8 (pin_name p) /\ Forall val_port (pin_ports p) /\ Forall val_attr (pin_antenna_attrs p)
+  /\ vopt U8 (pin_taper_rule p) /\ vopt U8 (pin_supply_sensitivity p) /\ vopt U8 (pin_ground_sensitivity p)
+  /\ vopt U8 (pin_must_join p) /\ vopt U8 (pin_net_expr p) /\ Forall val_prop (pin_properties p).
+Definition val_foreign (f : lef_foreign) : Prop := U8 (fo_cell_name f).
+Definition val_dg (g : lef_density_geoms) : Prop := U8 (dg_layer_name g).
+Definition val_macro (m : lef_macro) : Prop :=
+  U8 (mac_name m) /\ Forall val_pin (mac_pins m) /\ Forall val_lg (mac_obs m) /\ vopt val_foreign (mac_foreign m)
+  /\ vopt U8 (mac_site m) /\ vopt U8 (mac_eeq m) /\ Forall val_prop (mac_properties m)
+  /\ vopt (Forall val_dg) (mac_density m).
+Definition val_vlg (l : lef_via_layer_geoms) : Prop := U8 (vl_layer_name l).
+Definition val_gen_via (g : lef_gen_via) : Prop :=
+  U8 (gv_via_rule_name g) /\ U8 (gv_bot_metal_layer g) /\ U8 (gv_cut_layer g) /\ U8 (gv_top_metal_layer g).
+Definition val_via_data (d : lef_via_data) : Prop :=
+  match d with VdFixed f => Forall val_vlg (fv_layers f) | VdGenerated g => val_gen_via g end.
+Definition val_via_def (v : lef_via_def) : Prop := U8 (vd_name v) /\ val_via_data (vd_data v).
+Definition val_site (s : lef_site) : Prop := U8 (site_name s).
+Definition val_propdef (p : lef_propdef) : Prop :=
+  match p with
+  | PdLefString _ name v => U8 name /\ vopt U8 v
+  | PdLefReal _ name _ _ | PdLefInteger _ name _ _ => U8 name
+  end.
+Definition val_ext (e : lef_extension) : Prop := U8 (ext_name e) /\ U8 (ext_data e).
+Definition val_bbc (p : Z * Z) : Prop := val_char (fst p) /\ val_char (snd p).
+Definition val_lib (l : lef_lib) : Prop :=
+  Forall val_macro (lib_macros l) /\ Forall val_site (lib_sites l) /\ Forall val_via_def (lib_vias l)
+  /\ vopt val_bbc (lib_bus_bit_chars l) /\ vopt val_char (lib_divider_char l)
+  /\ Forall val_ext (lib_extensions l) /\ Forall val_propdef (lib_property_definitions l).
+Definition val_gvb (b : gv_builder) : Prop :=
+  vopt (fun t => U8 (fst (fst t)) /\ U8 (snd (fst t)) /\ U8 (snd t)) (gb_layers b).
+
+Create HintDb vdb.
+#[local] Hint Unfold vopt val_via_inst val_lg val_port val_attr val_prop val_pin val_foreign val_dg val_macro val_vlg
+  val_gen_via val_via_data val_via_def val_site val_propdef val_ext val_bbc val_lib val_gvb
+  empty_pin empty_macro empty_lib T
+  set_pt_x set_pt_y set_st_numx set_st_numy set_st_spacex set_st_spacey set_vi_via_name set_vi_pt set_lg_layer_name set_lg_geometries set_lg_vias set_lg_except_pg_net set_lg_spacing set_lg_width set_po_class set_po_layers set_aa_key set_aa_val set_aa_layer set_pr_name set_pr_value set_pin_name set_pin_ports set_pin_direction set_pin_use_ set_pin_shape set_pin_antenna_model set_pin_antenna_attrs set_pin_taper_rule set_pin_supply_sensitivity set_pin_ground_sensitivity set_pin_must_join set_pin_net_expr set_pin_properties set_fo_cell_name set_fo_pt set_fo_orient set_dr_pt1 set_dr_pt2 set_dr_density_value set_dg_layer_name set_dg_geometries set_mac_name set_mac_pins set_mac_obs set_mac_class set_mac_foreign set_mac_origin set_mac_size set_mac_symmetry set_mac_site set_mac_source set_mac_eeq set_mac_fixed_mask set_mac_properties set_mac_density set_vl_layer_name set_vl_shapes set_fv_resistance_ohms set_fv_layers set_rc_rows set_rc_cols set_of_bot_x set_of_bot_y set_of_top_x set_of_top_y set_gv_via_rule_name set_gv_cut_size_x set_gv_cut_size_y set_gv_bot_metal_layer set_gv_cut_layer set_gv_top_metal_layer set_gv_cut_spacing_x set_gv_cut_spacing_y set_gv_bot_enc_x set_gv_bot_enc_y set_gv_top_enc_x set_gv_top_enc_y set_gv_rowcol set_gv_origin set_gv_offset set_vd_name set_vd_default set_vd_data set_site_name set_site_class set_site_size set_site_symmetry set_u_database_microns set_u_time_ns set_u_capacitance_pf set_u_resistance_ohms set_u_power_mw set_u_current_ma set_u_voltage_volts set_u_frequency_mhz set_ext_name set_ext_data set_lib_macros set_lib_sites set_lib_vias set_lib_version set_lib_names_case_sensitive set_lib_no_wire_extension_at_pin set_lib_bus_bit_chars set_lib_divider_char set_lib_units set_lib_fixed_mask set_lib_clearance_measure set_lib_extensions set_lib_manufacturing_grid set_lib_use_min_spacing set_lib_property_definitions : vdb.
+
+Lemma U8_sp : U8 [32].
+Proof. apply U8_1; [lia | constructor]. Qed.
+
+(** the characters of a valid text are scalar values that encode back to well-formed UTF-8 *)
+Lemma chars_of_valid : forall s, U8 s -> Forall val_char (chars_of s).
+Proof.
+  Ltac Zify.zify_post_hook ::= Z.div_mod_to_equations.
+  induction 1 as [|c r Hc Hr IH|c0 c1 r Hc H1 Hr IH|c0 c1 c2 r Hc H1 H2 Ha Hd Hr IH|c0 c1 c2 c3 r Hc H1 H2 H3 Ha Hd Hr IH].
+  - constructor.
+  - cbn [chars_of]. replace (is_cont c) with false by (unfold is_cont; symmetry; apply andb_false_intro1; apply Z.leb_gt; lia).
+    constructor; [|exact IH]. unfold val_char, cp_at.
+    replace (c <? 128) with true by (symmetry; apply Z.ltb_lt; lia). cbv iota. unfold utf8_enc.
+    replace (c <? 128) with true by (symmetry; apply Z.ltb_lt; lia). apply U8_1; [lia | constructor].
+  - pose proof (cont_not_ascii _ H1) as B1.
+    cbn [chars_of]. replace (is_cont c0) with false by (unfold is_cont; symmetry; apply andb_false_intro2; apply Z.ltb_ge; lia).
+    rewrite H1. constructor; [|exact IH]. unfold val_char, cp_at.
+    replace (c0 <? 128) with false by (symmetry; apply Z.ltb_ge; lia).
+    replace (c0 <? 224) with true by (symmetry; apply Z.ltb_lt; lia). cbv iota.
+    set (cp := (c0 - 192) * 64 + (c1 - 128)). unfold utf8_enc.
+    replace (cp <? 128) with false by (symmetry; apply Z.ltb_ge; unfold cp; lia).
+    replace (cp <? 2048) with true by (symmetry; apply Z.ltb_lt; unfold cp; lia). cbv iota.
+    replace (192 + cp / 64) with c0 by (unfold cp; lia). replace (128 + cp mod 64) with c1 by (unfold cp; lia).
+    apply U8_2; auto. constructor.
+  - pose proof (cont_not_ascii _ H1) as B1. pose proof (cont_not_ascii _ H2) as B2.
+    cbn [chars_of]. replace (is_cont c0) with false by (unfold is_cont; symmetry; apply andb_false_intro2; apply Z.ltb_ge; lia).
+    rewrite H1, H2. constructor; [|exact IH]. unfold val_char, cp_at.
+    replace (c0 <? 128) with false by (symmetry; apply Z.ltb_ge; lia).
+    replace (c0 <? 224) with false by (symmetry; apply Z.ltb_ge; lia).
+    replace (c0 <? 240) with true by (symmetry; apply Z.ltb_lt; lia). cbv iota.
+    set (cp := (c0 - 224) * 4096 + (c1 - 128) * 64 + (c2 - 128)). unfold utf8_enc.
+    assert (2048 <= cp < 65536) by (unfold cp; destruct (Z.eq_dec c0 224) as [E|E]; [specialize (Ha E) |]; lia).
+    replace (cp <? 128) with false by (symmetry; apply Z.ltb_ge; lia).
+    replace (cp <? 2048) with false by (symmetry; apply Z.ltb_ge; lia).
+    replace (cp <? 65536) with true by (symmetry; apply Z.ltb_lt; lia). cbv iota.
+    replace (224 + cp / 4096) with c0 by (unfold cp; lia).
+    replace (128 + (cp / 64) mod 64) with c1 by (unfold cp; lia).
+    replace (128 + cp mod 64) with c2 by (unfold cp; lia).
+    apply U8_3; auto. constructor.
+  - pose proof (cont_not_ascii _ H1) as B1. pose proof (cont_not_ascii _ H2) as B2. pose proof (cont_not_ascii _ H3) as B3.
+    cbn [chars_of]. replace (is_cont c0) with false by (unfold is_cont; symmetry; apply andb_false_intro2; apply Z.ltb_ge; lia).
+    rewrite H1, H2, H3. constructor; [|exact IH]. unfold val_char, cp_at.
+    replace (c0 <? 128) with false by (symmetry; apply Z.ltb_ge; lia).
+    replace (c0 <? 224) with false by (symmetry; apply Z.ltb_ge; lia).
+    replace (c0 <? 240) with false by (symmetry; apply Z.ltb_ge; lia). cbv iota.
+    set (cp := (c0 - 240) * 262144 + (c1 - 128) * 4096 + (c2 - 128) * 64 + (c3 - 128)). unfold utf8_enc.
+    assert (65536 <= cp) by (unfold cp; destruct (Z.eq_dec c0 240) as [E|E]; [specialize (Ha E) |]; lia).
+    replace (cp <? 128) with false by (symmetry; apply Z.ltb_ge; lia).
+    replace (cp <? 2048) with false by (symmetry; apply Z.ltb_ge; lia).
+    replace (cp <? 65536) with false by (symmetry; apply Z.ltb_ge; lia). cbv iota.
+    replace (240 + cp / 262144) with c0 by (unfold cp; lia).
+    replace (128 + (cp / 4096) mod 64) with c1 by (unfold cp; lia).
+    replace (128 + (cp / 64) mod 64) with c2 by (unfold cp; lia).
+    replace (128 + cp mod 64) with c3 by (unfold cp; lia).
+    apply U8_4; auto. constructor.
+Qed.
+
+Section SV.
+Variable cf : cfg.
+Variable src : bytes.
+Hypothesis Hsrc : U8 src.
+
+(** partial correctness: whatever [m] returns satisfies [Q] (no statement about panics or fuel: that is [Spec]) *)
+Class SV {A} (Q : A -> Prop) (m : P A) : Prop :=
+  sv : forall st a st', m st = Ok (a, st') -> Q a.
+
+Lemma SV_bind {A B} (Q1 : A -> Prop) (Q : B -> Prop) (m : P A) (k : A -> P B) :
+  SV Q1 m -> (forall a, Q1 a -> SV Q (k a)) -> SV Q (bind m k).
+Proof.
+  intros H K st b st'' E. unfold bind in E. destruct (m st) as [[a st']|e| | |] eqn:M; try discriminate.
+  exact (K a (H _ _ _ M) _ _ _ E).
+Qed.
+Lemma SV_weaken {A} (Q1 Q : A -> Prop) (m : P A) : SV Q1 m -> (forall a, Q1 a -> Q a) -> SV Q m.
+Proof. intros H W st a st' E. apply W. exact (H _ _ _ E). Qed.
+Lemma SV_assoc {A B C} (Q : C -> Prop) (m : P A) (k1 : A -> P B) (k2 : B -> P C) :
+  SV Q (bind m (fun a => bind (k1 a) k2)) -> SV Q (bind (bind m k1) k2).
+Proof.
+  intros H st c st' E. apply (H st c st'). unfold bind in *. destruct (m st) as [[a s]|e| | |]; auto.
+Qed.
+Lemma SV_get {B} (Q : B -> Prop) (k : pst -> P B) : (forall s, SV Q (k s)) -> SV Q (bind get k).
+Proof. intros K st a st' E. exact (K st st a st' E). Qed.
+Lemma SV_ret_bind {A B} (Q : B -> Prop) (a : A) (k : A -> P B) : SV Q (k a) -> SV Q (bind (ret a) k).
+Proof. intros H st b st' E. exact (H st b st' E). Qed.
+Lemma SV_ret {A} (Q : A -> Prop) (a : A) : Q a -> SV Q (ret a).
+Proof. intros H st b st' E. injection E as <- _. exact H. Qed.
+Lemma SV_fn {A} (Q : A -> Prop) (a : A) (f : pst -> pst) : Q a -> SV Q (fun st => Ok (a, f st)).
+Proof. intros H st b st' E. injection E as <- _. exact H. Qed.
+Lemma SV_fail_msg {A} (Q : A -> Prop) tp m : SV Q (@fail_msg cf src A tp m).
+Proof. intros st a st' E. unfold fail_msg in E. destruct (state cf src st) as [[[[? ?] ?] ?]|]; discriminate. Qed.
+Lemma SV_fail {A} (Q : A -> Prop) tp : SV Q (@fail cf src A tp).
+Proof. apply SV_fail_msg. Qed.
+Lemma SV_lift_none {A} (Q : A -> Prop) (r : res A) : (forall a, r = Ok a -> Q a) -> SV Q (lift r).
+Proof. intros H st a st' E. unfold lift in E. destruct r; try discriminate. injection E as <- _. auto. Qed.
+
+(** anything satisfies the trivial postcondition: the fallback instance *)
+Global Instance SV_T {A} (m : P A) : SV T m | 100.
+Proof. intros st a st' E. exact I. Qed.
+Global Instance txt_sv t : SV U8 (txt src t).
+Proof.
+  intros st a st' E. unfold txt in E. destruct (substr src t) as [s|] eqn:S; [|discriminate].
+  injection E as <- _. unfold substr in S. eapply slice_valid; eauto.
+Qed.
+Global Instance fail_sv {A} tp : SV (fun _ : A => False) (fail cf src tp).
+Proof. apply SV_fail. Qed.
+Global Instance fail_msg_sv {A} tp m : SV (fun _ : A => False) (fail_msg cf src tp m).
+Proof. apply SV_fail_msg. Qed.
+Global Instance lift_gvb_sv rule b :
+  SV (fun g => U8 rule -> val_gvb b -> val_gen_via g) (lift (gen_via_build rule b)).
+Proof.
+  apply SV_lift_none. intros g E Hr Hb. unfold gen_via_build in E. unfold val_gvb in Hb.
+  destruct (gb_cut_size b) as [[? ?]|]; [|discriminate].
+  destruct (gb_layers b) as [[[? ?] ?]|]; [|discriminate].
+  destruct (gb_cut_spacing b) as [[? ?]|]; [|discriminate].
+  destruct (gb_enclosure b) as [[[[? ?] ?] ?]|]; [|discriminate].
+  injection E as <-. simpl in Hb. unfold val_gen_via. simpl. tauto.
+Qed.
+
+#[local] Hint Resolve U8_app U8_nil U8_sp Forall_nil : vdb.
+#[local] Hint Extern 1 (Forall _ (_ :: _)) => (constructor; simpl; repeat split) : vdb.
+Ltac vside :=
+  intros; autounfold with vdb in *; cbn beta iota in *; simpl in *;
+  repeat match goal with |- context [if ?b then _ else _] => destruct b end;
+  repeat match goal with p : (_ * _)%type |- _ => destruct p end; simpl in *;
+  repeat rewrite Forall_app in *;
+  repeat match goal with
+         | H : ?A -> _ |- _ =>
+           let HA := fresh in assert (HA : A) by (intuition (auto with vdb)); specialize (H HA); clear HA
+         end;
+  intuition (auto with vdb).
+
+Ltac vstep :=
+  cbv beta;
+  lazymatch goal with
+  | |- SV _ (bind ?m ?k) =>
+    lazymatch m with
+    | get => apply SV_get; intros ?
+    | ret _ => apply SV_ret_bind
+    | bind _ _ => apply SV_assoc
+    | when _ _ => unfold when
+    | match ?x with _ => _ end => destruct x eqn:?
+    | _ => eapply SV_bind; [typeclasses eauto | intros ? ?; try contradiction]
+    end
+  | |- SV _ (ret _) => apply SV_ret; vside
+  | |- SV _ (fail _ _ _) => apply SV_fail
+  | |- SV _ (fail_msg _ _ _ _) => apply SV_fail_msg
+  | |- SV _ (lift OutOfFuel) => apply SV_lift_none; intros; discriminate
+  | |- SV _ (lift (Err _)) => apply SV_lift_none; intros; discriminate
+  | |- SV _ (when _ _) => unfold when
+  | |- SV _ (match ?x with _ => _ end) => destruct x eqn:?
+  | |- SV _ ?m => eapply SV_weaken; [typeclasses eauto | intros ? ?; vside]
+  end.
+Ltac vrun := repeat vstep.
+Ltac vloop f := induction f as [|f IH]; intros; [apply SV_lift_none; intros; discriminate|].
+
+Global Instance expect_and_get_str_sv ty : SV U8 (expect_and_get_str cf src ty).
+Proof. unfold expect_and_get_str. vrun. Qed.
+Global Instance get_name_sv : SV U8 (get_name cf src).
+Proof. unfold get_name. typeclasses eauto. Qed.
+Global Instance parse_ident_sv : SV U8 (parse_ident cf src).
+Proof. unfold parse_ident. typeclasses eauto. Qed.
+Global Instance ident_stmt_sv : SV U8 (ident_stmt cf src).
+Proof. unfold ident_stmt. vrun. Qed.
+
+Global Instance layer_opts_loop_sv f : forall lg, SV (fun r => val_lg lg -> val_lg r) (layer_opts_loop cf src f lg).
+Proof. vloop f. cbn [layer_opts_loop]. vrun. Qed.
+Global Instance layer_body_loop_sv f : forall lg, SV (fun r => val_lg lg -> val_lg r) (layer_body_loop cf src f lg).
+Proof. vloop f. cbn [layer_body_loop]. vrun. Qed.
+Global Instance parse_layer_geometries_sv : SV val_lg (parse_layer_geometries cf src).
+Proof. unfold parse_layer_geometries. vrun. Qed.
+Global Instance port_loop_sv f : forall cl ly, SV (fun r => Forall val_lg ly -> val_port r) (port_loop cf src f cl ly).
+Proof. vloop f. cbn [port_loop]. vrun. Qed.
+Global Instance parse_port_sv : SV val_port (parse_port cf src).
+Proof. unfold parse_port. vrun. Qed.
+Global Instance density_loop_sv f : forall acc, SV (fun r => Forall val_dg acc -> Forall val_dg r) (density_loop cf src f acc).
+Proof. vloop f. cbn [density_loop]. vrun. Qed.
+Global Instance parse_density_sv : SV (Forall val_dg) (parse_density cf src).
+Proof. unfold parse_density. vrun. Qed.
+Global Instance obs_loop_sv f : forall acc, SV (fun r => Forall val_lg acc -> Forall val_lg r) (obs_loop cf src f acc).
+Proof. vloop f. cbn [obs_loop]. vrun. Qed.
+Global Instance parse_obstructions_sv : SV (Forall val_lg) (parse_obstructions cf src).
+Proof. unfold parse_obstructions. vrun. Qed.
+Global Instance property_loop_sv f : forall acc, SV (fun r => Forall val_prop acc -> Forall val_prop r) (property_loop cf src f acc).
+Proof. vloop f. cbn [property_loop]. vrun. Qed.
+Global Instance parse_property_sv acc : SV (fun r => Forall val_prop acc -> Forall val_prop r) (parse_property cf src acc).
+Proof. unfold parse_property. vrun. Qed.
+Global Instance pin_loop_sv f : forall pin props,
+  SV (fun r => val_pin pin -> Forall val_prop props -> val_pin (fst r) /\ Forall val_prop (snd r)) (pin_loop cf src f pin props).
+Proof. vloop f. cbn [pin_loop]. vrun. Qed.
+Global Instance parse_pin_sv : SV val_pin (parse_pin cf src).
+Proof. unfold parse_pin. vrun. Qed.
+Global Instance macro_loop_sv f : forall mac props,
+  SV (fun r => val_macro mac -> Forall val_prop props -> val_macro (fst r) /\ Forall val_prop (snd r)) (macro_loop cf src f mac props).
+Proof. vloop f. cbn [macro_loop]. vrun. Qed.
+Global Instance parse_macro_sv : SV val_macro (parse_macro cf src).
+Proof. unfold parse_macro. vrun. Qed.
+Global Instance propdefs_loop_sv f : forall acc,
+  SV (fun r => Forall val_propdef acc -> Forall val_propdef r) (propdefs_loop cf src f acc).
+Proof. vloop f. cbn [propdefs_loop]. vrun. Qed.
+Global Instance parse_property_definitions_sv : SV (Forall val_propdef) (parse_property_definitions cf src).
+Proof. unfold parse_property_definitions. vrun. Qed.
+Global Instance parse_site_def_sv : SV val_site (parse_site_def cf src).
+Proof. unfold parse_site_def. vrun. Qed.
+Global Instance gen_via_loop_sv f : forall b, SV (fun r => val_gvb b -> val_gvb r) (gen_via_loop cf src f b).
+Proof. vloop f. cbn [gen_via_loop]. vrun. Qed.
+Global Instance parse_via_layer_geometries_sv : SV val_vlg (parse_via_layer_geometries cf src).
+Proof. unfold parse_via_layer_geometries. vrun. Qed.
+Global Instance fixed_via_layers_loop_sv f : forall acc,
+  SV (fun r => Forall val_vlg acc -> Forall val_vlg r) (fixed_via_layers_loop cf src f acc).
+Proof. vloop f. cbn [fixed_via_layers_loop]. vrun. Qed.
+Global Instance parse_via_sv : SV val_via_def (parse_via cf src).
+Proof. unfold parse_via. vrun. Qed.
+Global Instance ext_loop_sv f : forall data, SV (fun r => U8 data -> U8 r) (ext_loop cf src f data).
+Proof. vloop f. cbn [ext_loop]. vrun. Qed.
+
+Global Instance parse_bus_bit_chars_sv : SV val_bbc (parse_bus_bit_chars cf src).
+Proof.
+  unfold parse_bus_bit_chars.
+  eapply SV_bind; [typeclasses eauto | intros ? _].
+  eapply SV_bind; [apply expect_and_get_str_sv | intros s Hs].
+  pose proof (chars_of_valid s Hs) as F.
+  destruct (chars_of s) as [|x0 [|c1 [|c2 [|x3 [|? ?]]]]]; try apply SV_fail.
+  eapply SV_bind; [typeclasses eauto | intros ? _]. apply SV_ret.
+  repeat match goal with H : Forall _ (_ :: _) |- _ => inversion H; clear H; subst end.
+  split; assumption.
+Qed.
+Global Instance parse_divider_char_sv : SV val_char (parse_divider_char cf src).
+Proof.
+  unfold parse_divider_char.
+  eapply SV_bind; [typeclasses eauto | intros ? _].
+  eapply SV_bind; [apply expect_and_get_str_sv | intros s Hs].
+  pose proof (chars_of_valid s Hs) as F.
+  destruct (chars_of s) as [|x0 [|c1 [|x3 [|? ?]]]]; try apply SV_fail.
+  eapply SV_bind; [typeclasses eauto | intros ? _]. apply SV_ret.
+  repeat match goal with H : Forall _ (_ :: _) |- _ => inversion H; clear H; subst end.
+  assumption.
+Qed.
+Global Instance lib_loop_sv f : forall lib, SV (fun r => val_lib lib -> val_lib r) (lib_loop cf src f lib).
+Proof. vloop f. cbn [lib_loop]. vrun. Qed.
+Global Instance parse_lib_sv : SV val_lib (parse_lib cf src).
+Proof. unfold parse_lib. vrun. Qed.
+
+End SV.
+
+(** every string of a library read from valid UTF-8 is valid UTF-8 (names and string literals are token texts,
+    sliced on character boundaries; extension data is a concatenation of token texts and spaces; the bus-bit and
+    divider characters are decoded scalar values) *)
+Theorem parse_valid : forall cf src l, U8 src -> parse cf src = Ok l -> val_lib l.
+Proof.
+  intros cf src l V H. unfold parse in H. destruct (lex (c_charpos cf) src) as [toks e].
+  assert (G : forall st, match parse_lib cf src st with
+                         | Ok (l0, _) => Ok l0
+                         | Err er => Err er | Panic => Panic | OutOfFuel => OutOfFuel | Unmodelled => Unmodelled
+                         end = Ok l -> val_lib l).
+  { intros st E. destruct (parse_lib cf src st) as [[l0 st']|er| | |] eqn:PL; try discriminate.
+    injection E as <-. exact (parse_lib_sv cf src V _ _ _ PL). }
+  destruct toks; destruct e; try discriminate; eapply G; eauto.
+Qed.
+
+(** * The writer emits valid UTF-8 when the library's strings are valid *)
+Definition asc (b : Z) : Prop := 0 <= b < 128.
+
+Lemma Forall_firstn {A} (P : A -> Prop) : forall n l, Forall P l -> Forall P (firstn n l).
+Proof. induction n; intros l H; simpl; [constructor|]. destruct H; constructor; auto. Qed.
+Lemma Forall_skipn {A} (P : A -> Prop) : forall n l, Forall P l -> Forall P (skipn n l).
+Proof. induction n; intros l H; simpl; [exact H|]. destruct H; [constructor | auto]. Qed.
+
+Lemma digits_rev_asc : forall f n, Forall asc (digits_rev f n).
+Proof.
+  Ltac Zify.zify_post_hook ::= Z.div_mod_to_equations.
+  induction f as [|f IH]; intros n; cbn [digits_rev]; [constructor|].
+  destruct (n <=? 0); [constructor | constructor; [unfold asc; lia | apply IH]].
+Qed.
+Lemma zeros_asc : forall n, Forall asc (zeros n).
+Proof. induction n; simpl; constructor; [unfold asc; lia | auto]. Qed.
+Lemma dec_to_bytes_asc : forall d, Forall asc (dec_to_bytes d).
+Proof.
+  intros d. unfold dec_to_bytes.
+  set (ds' := zeros _ ++ digits_of (d_mant d)).
+  assert (F : Forall asc ds').
+  { apply Forall_app. split; [apply zeros_asc | unfold digits_of; apply Forall_rev; apply digits_rev_asc]. }
+  set (whole := firstn _ ds'). set (frac := skipn _ ds').
+  assert (Fw : Forall asc (match whole with [] => [48] | _ => whole end)).
+  { pose proof (Forall_firstn asc (length ds' - Z.to_nat (d_scale d)) ds' F) as W. fold whole in W.
+    destruct whole; [repeat constructor; unfold asc; lia | exact W]. }
+  assert (Ff : Forall asc frac) by (apply Forall_skipn; exact F).
+  assert (Fb : Forall asc (match Z.to_nat (d_scale d) with
+                           | O => match whole with [] => [48] | _ => whole end
+                           | S _ => (match whole with [] => [48] | _ => whole end) ++ 46 :: frac
+                           end)).
+  { destruct (Z.to_nat (d_scale d)); [exact Fw|]. apply Forall_app. split; [exact Fw|].
+    constructor; [unfold asc; lia | exact Ff]. }
+  destruct (d_neg d); [constructor; [unfold asc; lia | exact Fb] | exact Fb].
+Qed.
+Lemma U8_dstr : forall d, U8 (dstr d).
+Proof. intros. apply U8_ascii. apply dec_to_bytes_asc. Qed.
+
+Lemma U8_asc1 : forall b r, (0 <=? b) && (b <? 128) = true -> U8 r -> U8 (b :: r).
+Proof. intros b r H Hr. apply andb_prop in H. destruct H as [A B]. apply Z.leb_le in A. apply Z.ltb_lt in B. apply U8_1; [lia | exact Hr]. Qed.
+Ltac closed_u8 := apply valid_U8; vm_compute; reflexivity.
+Lemma U8_kw : forall k, U8 (kw k).
+Proof. intros k. destruct k; closed_u8. Qed.
+Lemma U8_nl : U8 [10].
+Proof. closed_u8. Qed.
+Lemma U8_indent : forall n, U8 (indent_str n).
+Proof. induction n; simpl; [constructor|]. repeat (apply U8_1; [lia|]). exact IHn. Qed.
+Lemma U8_join : forall sep l, U8 sep -> Forall U8 l -> U8 (join sep l).
+Proof.
+  intros sep l Hs F. induction F as [|x r Hx Hr IH]; simpl; [constructor|].
+  destruct r; [exact Hx|]. apply U8_app; [exact Hx|]. apply U8_app; [exact Hs | exact IH].
+Qed.
+Lemma U8_pt_str : forall p, U8 (pt_str p).
+Proof.
+  intros. unfold pt_str, cat. cbn [concat].
+  apply U8_app; [apply U8_dstr|]. apply U8_app; [apply U8_sp|]. apply U8_app; [apply U8_dstr | constructor].
+Qed.
+Lemma Forall_map_all {A B} (P : B -> Prop) (f : A -> B) (l : list A) : (forall x, P (f x)) -> Forall P (map f l).
+Proof. intros H. induction l; simpl; constructor; auto. Qed.
+Lemma Forall_map_of {A B} (Q : A -> Prop) (P : B -> Prop) (f : A -> B) (l : list A) :
+  Forall Q l -> (forall x, Q x -> P (f x)) -> Forall P (map f l).
+Proof. intros F H. induction F; simpl; constructor; auto. Qed.
+
+Definition lines_ok (ls : list line) : Prop := Forall (fun ln => U8 (snd ln)) ls.
+Lemma render_lines_valid : forall ls, lines_ok ls -> U8 (render_lines ls).
+Proof.
+  intros ls F. unfold render_lines. apply U8_concat. induction F as [|[i t] r Ht Hr IH]; simpl; constructor; auto.
+  apply U8_app; [apply U8_indent|]. apply U8_app; [exact Ht | apply U8_nl].
+Qed.
+Lemma lines_ok_nil : lines_ok [].
+Proof. constructor. Qed.
+Lemma lines_ok_cons : forall i t r, U8 t -> lines_ok r -> lines_ok ((i, t) :: r).
+Proof. intros. constructor; auto. Qed.
+Lemma lines_ok_app : forall a b, lines_ok a -> lines_ok b -> lines_ok (a ++ b).
+Proof. intros. apply Forall_app. split; assumption. Qed.
+Lemma lines_ok_flat_map {X} (Q : X -> Prop) (f : X -> list line) (xs : list X) :
+  Forall Q xs -> (forall x, Q x -> lines_ok (f x)) -> lines_ok (flat_map f xs).
+Proof. intros F H. induction F; simpl; [constructor|]. apply lines_ok_app; auto. Qed.
+Lemma lines_ok_flat_map_all {X} (f : X -> list line) (xs : list X) :
+  (forall x, lines_ok (f x)) -> lines_ok (flat_map f xs).
+Proof. intros H. induction xs; simpl; [constructor|]. apply lines_ok_app; auto. Qed.
+
+(** ** a solver for "this text is valid UTF-8" *)
+Ltac hyps :=
+  unfold val_gen_via, val_via_data, val_foreign, val_ext, val_bbc, val_char, val_attr, val_prop, val_dg, val_vlg,
+         val_via_inst, val_site, vopt in *;
+  repeat match goal with
+         | H : _ /\ _ |- _ => destruct H
+         | H : vopt _ (Some _) |- _ => simpl in H
+         end.
+Ltac u8 :=
+  repeat first
+    [ assumption
+    | apply U8_nil | apply U8_sp | apply U8_kw | apply U8_dstr | apply U8_pt_str | apply U8_nl
+    | match goal with
+      | |- U8 (cat _) => unfold cat; cbn [concat]
+      | |- U8 (_ ++ _) => apply U8_app
+      | |- U8 (_ :: _) => apply U8_asc1; [vm_compute; reflexivity |]
+      | |- U8 (bs _) => closed_u8
+      | |- U8 (enum_s _ ?x) => destruct x; closed_u8
+      | |- U8 (dir_str ?d) => destruct d; repeat match goal with |- context [DirOutput ?b] => is_var b; destruct b end; closed_u8
+      | |- U8 (display_option _ ?o) => destruct o as [?x|]; [destruct x; closed_u8 | apply U8_nil]
+      | |- U8 (if ?b then _ else _) => destruct b
+      | |- U8 (match ?x with _ => _ end) => destruct x eqn:?; hyps
+      | |- U8 (join _ _) => apply U8_join
+      | |- Forall U8 (map pt_str _) => apply Forall_map_all; intros
+      | |- Forall U8 (map (enum_s _) _) => apply Forall_map_all; intros
+      | |- Forall U8 (_ ++ _) => apply Forall_app; split
+      | |- Forall U8 (_ :: _) => constructor
+      | |- Forall U8 [] => constructor
+      | |- Forall U8 (match ?x with _ => _ end) => destruct x eqn:?; hyps
+      | |- Forall U8 (if ?b then _ else _) => destruct b
+      end ].
+(** [Ok b = Ok x] without normalising [b] (unlike [injection]) *)
+Ltac ok_inj E :=
+  match type of E with Ok ?b = Ok ?x => let EE := fresh in assert (EE : b = x) by congruence; clear E; subst x end.
+Ltac lok_ext := fail.
+Ltac lok :=
+  repeat first
+    [ lok_ext
+    | match goal with
+      | |- lines_ok (_ ++ _) => apply lines_ok_app
+      | |- lines_ok (_ :: _) => apply lines_ok_cons; [u8 |]
+      | |- lines_ok [] => apply lines_ok_nil
+      | |- lines_ok (match ?x with _ => _ end) => destruct x eqn:?; hyps
+      | |- lines_ok (if ?b then _ else _) => destruct b
+      end ].
+
+Section WV.
+Variable cf : cfg.
+
+Lemma write_symmetries_ok : forall i s, lines_ok (write_symmetries i s).
+Proof. intros. unfold write_symmetries. lok. Qed.
+Lemma format_mask_ok : forall m, Forall U8 (format_mask m).
+Proof. intros [d|]; simpl; u8. Qed.
+Lemma format_geom_ok : forall sh pat, Forall U8 (format_geom sh pat).
+Proof.
+  intros sh pat. unfold format_geom.
+  apply Forall_app. split.
+  - destruct sh; repeat (apply Forall_app; split); try apply format_mask_ok; u8.
+  - u8.
+Qed.
+Lemma write_geom_ok : forall i g, lines_ok (write_geom i g).
+Proof.
+  intros i g. unfold write_geom. constructor; [|constructor]. cbn [snd].
+  apply U8_app; [|u8]. apply U8_join; [apply U8_sp|]. destruct g; apply format_geom_ok.
+Qed.
+Lemma write_layer_geom_ok : forall i l, val_lg l -> lines_ok (write_layer_geom i l).
+Proof.
+  intros i l [Hn Hv]. unfold write_layer_geom. lok.
+  - apply lines_ok_flat_map_all. intros. apply write_geom_ok.
+  - unfold lines_ok. eapply Forall_map_of; [exact Hv|]. intros v Hvi. cbn [snd]. unfold val_via_inst in Hvi. u8.
+Qed.
+Lemma write_via_shape_ok : forall i s, lines_ok (write_via_shape i s).
+Proof. intros i s. unfold write_via_shape. destruct s; lok. Qed.
+Lemma write_via_layer_geom_ok : forall i l, val_vlg l -> lines_ok (write_via_layer_geom i l).
+Proof.
+  intros i l H. unfold val_vlg in H. unfold write_via_layer_geom. lok.
+  apply lines_ok_flat_map_all. intros. apply write_via_shape_ok.
+Qed.
+Lemma write_via_ok : forall i v, val_via_def v -> lines_ok (write_via i v).
+Proof.
+  intros i v [Hn Hd]. unfold write_via. destruct (vd_data v) as [f|g]; simpl in Hd.
+  - lok; eapply lines_ok_flat_map; [exact Hd|]; intros; apply write_via_layer_geom_ok; assumption.
+  - hyps. lok.
+Qed.
+Lemma write_site_ok : forall i s, val_site s -> lines_ok (write_site cf i s).
+Proof. intros i s H. unfold val_site in H. unfold write_site. lok; apply write_symmetries_ok. Qed.
+Lemma write_units_ok : forall i u, lines_ok (write_units i u).
+Proof. intros i u. unfold write_units. lok. Qed.
+Lemma write_property_ok : forall i p, val_prop p -> lines_ok (write_property cf i p).
+Proof. intros i p [H1 H2]. unfold write_property. lok. Qed.
+Lemma write_port_ok : forall i p, val_port p -> lines_ok (write_port i p).
+Proof.
+  intros i p H. unfold val_port in H. unfold write_port.
+  lok; eapply lines_ok_flat_map; [exact H|]; intros; apply write_layer_geom_ok; assumption.
+Qed.
+Lemma write_pin_ok : forall i p, val_pin p -> lines_ok (write_pin cf i p).
+Proof.
+  intros i p H. unfold val_pin in H. hyps. unfold write_pin. unfold vopt in *. lok;
+  try (eapply lines_ok_flat_map; [eassumption|]; intros; first [apply write_property_ok | apply write_port_ok]; assumption).
+  all: unfold lines_ok; eapply Forall_map_of; [eassumption|]; intros a Ha; cbn [snd]; unfold val_attr, vopt in Ha; hyps; u8.
+Qed.
+Lemma write_density_ok : forall i d, Forall val_dg d -> lines_ok (write_density i d).
+Proof.
+  intros i d H. unfold write_density. lok.
+  eapply lines_ok_flat_map; [exact H|]. intros g Hg. unfold val_dg in Hg. lok.
+  unfold lines_ok. apply Forall_map_all. intros r. cbn [snd]. u8.
+Qed.
+Lemma obs_lines_ok : forall i obs, Forall val_lg obs ->
+  lines_ok (match obs with
+            | [] => []
+            | o => [(S i, kw K_Obs ++ sp)] ++ flat_map (write_layer_geom (S (S i))) o ++ [(S i, kw K_End ++ sp)]
+            end).
+Proof.
+  intros i obs F. destruct obs as [|x r]; [apply lines_ok_nil|].
+  apply lines_ok_app; [lok|]. apply lines_ok_app; [|lok].
+  eapply lines_ok_flat_map; [exact F|]. intros; apply write_layer_geom_ok; assumption.
+Qed.
+Ltac lok_ext ::=
+  match goal with |- lines_ok (match mac_obs _ with _ => _ end) => apply obs_lines_ok; assumption end.
+Lemma write_macro_class_ok : forall i c, lines_ok (write_macro_class i c).
+Proof. intros i c. unfold write_macro_class. destruct c; lok. Qed.
+Lemma write_macro_ok : forall ver i m ls, val_macro m -> write_macro cf ver i m = Ok ls -> lines_ok ls.
+Proof.
+  intros ver i m ls H E. unfold val_macro in H. hyps. unfold vopt in *. unfold write_macro in E.
+  assert (E' : exists body, ls = body /\ lines_ok body); [|destruct E' as (? & -> & ?); assumption].
+  destruct (mac_source m) eqn:S; [destruct (dec_gt ver V5P4); [discriminate|]|]; ok_inj E; eexists; (split; [reflexivity|]).
+  all: unfold val_foreign in *.
+  all: lok.
+  all:
+  try apply write_macro_class_ok; try apply write_symmetries_ok; try (apply write_density_ok; assumption);
+  try (eapply lines_ok_flat_map; [eassumption|]; intros; first [apply write_pin_ok | apply write_property_ok | apply write_layer_geom_ok]; assumption).
+Qed.
+Lemma write_macros_ok : forall ver ms ls, Forall val_macro ms -> write_macros cf ver ms = Ok ls -> lines_ok ls.
+Proof.
+  intros ver ms. induction ms as [|m r IH]; intros ls F E; simpl in E.
+  - injection E as <-. constructor.
+  - inversion F as [|? ? Hm Hr]; subst.
+    destruct (write_macro cf ver 0 m) as [l1| | | |] eqn:E1; try discriminate.
+    destruct (write_macros cf ver r) as [l2| | | |] eqn:E2; try discriminate.
+    injection E as <-. apply lines_ok_app; [eapply write_macro_ok; eauto | apply IH; auto].
+Qed.
+Lemma propdef_str_ok : forall p, val_propdef p -> U8 (propdef_str p).
+Proof.
+  intros p H. unfold val_propdef, vopt in H. unfold propdef_str, format_numeric_prop_def.
+  destruct p as [ot n [v|]|ot n v r|ot n v r]; hyps; u8.
+Qed.
+
+Theorem write_lib_valid : forall l t, val_lib l -> write_lib cf l = Ok t -> U8 t.
+Proof.
+  intros l t H E. unfold write_lib in E.
+  destruct (write_lib_lines cf l) as [ls| | | |] eqn:EL; try discriminate. injection E as <-.
+  apply render_lines_valid. unfold write_lib_lines in EL.
+  destruct (_ && _); [discriminate|]. destruct (_ && _); [discriminate|].
+  destruct (write_macros cf _ (lib_macros l)) as [ml| | | |] eqn:M; try discriminate.
+  unfold val_lib in H. hyps. apply write_macros_ok in M; [|assumption]. ok_inj EL.
+  unfold vopt, val_bbc, val_char in *.
+  lok; try assumption; try apply write_units_ok;
+  try (eapply lines_ok_flat_map; [eassumption|]; intros; first [apply write_via_ok | apply write_site_ok]; assumption).
+  all: unfold lines_ok; eapply Forall_map_of; [eassumption|]; intros x Hx; cbn [snd]; unfold val_ext in *; hyps;
+       first [apply U8_app; [apply propdef_str_ok; assumption | u8] | u8].
+Qed.
+
+End WV.
+
+Theorem rewrite_valid : forall cf src l t, utf8_valid src -> parse cf src = Ok l -> write_lib cf l = Ok t -> utf8_valid t.
+Proof.
+  intros cf src l t V P W. apply U8_valid. eapply write_lib_valid; [|exact W].
+  eapply parse_valid; [apply valid_U8; exact V | exact P].
 Qed.
